@@ -4,6 +4,8 @@ package c02
 
 import (
 	"crypto"
+	"math/big"
+	"sync/atomic"
 	"crypto/sha512"
 	"fmt"
 	"testing"
@@ -493,5 +495,58 @@ func edCase(a *edAPI, k, mi, mlen int) {
 				lib.Violation("C02:ctx-too-long-signed:"+a.name+":crypto.Signer", a.mon, lib.D("seed", seed, "msg", msg, "mode", v, "ctx_len", len(c), "sig", sig))
 			}
 		}
+	}
+}
+
+// TestVerifEdScalarRange: the range check on S must hold for EVERY signature,
+// not only for the few dozen of the case list: one key per curve signs a long
+// run of counter messages (S is uniform modulo L, so every class of low / high
+// octet patterns of S with probability >= 1/1000 turns up in the quick tier,
+// 1/20000 in the thorough one) and (R, S+L) - the same group equation, a
+// second encoding of the same scalar - must be refused for each of them, as
+// must S+2L .. while it fits.
+func TestVerifEdScalarRange(t *testing.T) {
+	const mon = "TestVerifEdScalarRange"
+	lib.Mandatory("scalar-range:signatures", "scalar-range:s-plus-l-refused")
+	for _, a := range []*edAPI{ed25519API(), ed448API()} {
+		a := a
+		n := lib.Scale(3000, 60000)
+		if a.name == "ed448" {
+			n = lib.Scale(800, 12000)
+		}
+		seed := keySeed("c02/"+a.name+"/range-key", 0, a.seedSize)
+		pk, sk := a.newKey(seed)
+		m := edMode{"pure", ""}
+		var reported int32
+		lib.Par(n, func(i int) {
+			msg := []byte(fmt.Sprintf("scalar range %d", i))
+			sig := a.sign(sk, msg, m)
+			lib.Count("scalar-range:signatures")
+			if i%64 == 0 {
+				lib.Case([]byte("scalar-range"), []byte(a.name), msg)
+			}
+			s := leToBig(sig[a.scalar.off : a.scalar.off+a.scalar.n])
+			for k := int64(1); k <= 3; k++ {
+				v := new(big.Int).Add(s, new(big.Int).Mul(a.scalar.order, big.NewInt(k)))
+				enc, fits := bigToLe(v, a.scalar.n)
+				if !fits {
+					break
+				}
+				c := lib.Clone(sig)
+				copy(c[a.scalar.off:], enc)
+				ok := false
+				if pn := lib.Try(a.name+".Verify(S+kL)", c, func() { ok = a.verify(pk, msg, c, m) }); pn != nil {
+					continue
+				}
+				if ok {
+					if atomic.AddInt32(&reported, 1) <= 3 {
+						lib.Violation("C02:accept-altered:"+a.name+":s-plus-l-sweep", mon,
+							lib.D("seed", seed, "msg", msg, "sig", sig, "altered", c, "k", k))
+					}
+				} else {
+					lib.Count("scalar-range:s-plus-l-refused")
+				}
+			}
+		})
 	}
 }
